@@ -623,7 +623,11 @@ def run(tier, args):
         "that reads undefined bytes, so only well-defined programs are judged. Helper callees overwrite every caller-saved GP/vector/mask register",
         "constructs whose probe fails are avoided by the random generator (mask above) - they are reported once under x64:probe:* instead of polluting "
         "every random program; a passing probe re-enables the construct",
-        "mutation self-test (scratch copies, quick tier): see the deliverable message of this check; calling conventions other than SysV/cdecl for "
-        "helper calls, MMX/x87 registers and ms_abi callees are not generated",
+        "mutation self-test on scratch copies (quick tier, 2026-09-27): (1) x86rapass.cpp on_invoke forgets that r10 is clobbered, (2) ralocal.cpp "
+        "switch_to_assignment drops the move into physical register 6, (3) x86rapass.cpp treats a write-only same-register idiom (xor r,r) as read-only, "
+        "(4) x86emithelper.cpp spills 64-bit mask registers with kmovd - all four detected as new x64:miscompile:<profile> / x64:crash:<profile> keys; "
+        "the mutant 'xor r,r is merely treated as a read of r' is semantically equivalent (only liveness grows) and is, as expected, not detected",
+        "not generated: calling conventions other than SysV/cdecl for helper calls (x86-32: cdecl/stdcall/fastcall function signatures are compiled only), "
+        "MMX/x87 registers, ms_abi callees, string instructions with REP",
     ]
     return chk.finish()
